@@ -219,9 +219,12 @@ Fixpoint ids_nodup (l : list peer_cr) : bool :=
 (* DiscardNativeOnly *)
 Definition discard_native_only (peers : list peer_cr) : bool :=
   match peers with
-  | p0 :: (_ :: _ as rest) =>
-      forallb (fun p => ipstr_eqb (pr_router p) (pr_router p0)) rest && ids_nodup peers
-  | _ => true
+  | p0 :: rest =>
+      match rest with
+      | [] => true
+      | _ => forallb (fun p => ipstr_eqb (pr_router p) (pr_router p0)) rest && ids_nodup peers
+      end
+  | [] => true
   end &&
   forallb (fun p => forallb (fun p1 => negb (negb (pr_myasn p =? pr_myasn p1) && (pr_vrf p =? pr_vrf p1)))
                             (tl peers)) peers.
